@@ -316,7 +316,8 @@ def check(a, pid, tier, work, t0):
     # random tables, other schedules) before the property is reported as held.
     fp, pinned = source_fingerprint(repo), pinned_fingerprint()
     extra_passes = 0
-    if not a.replay and not failing and pinned is not None and fp != pinned and os.environ.get("VERIF_NO_ESCALATE") != "1":
+    if not a.replay and not failing and not os.path.exists(os.path.join(outdir, "crashes.json")) \
+            and pinned is not None and fp != pinned and os.environ.get("VERIF_NO_ESCALATE") != "1":
         base_seed = a.seed
         for k in (1, 2):
             od = os.path.join(work, "pass%d" % k)
@@ -332,7 +333,7 @@ def check(a, pid, tier, work, t0):
             st["evaluations_before"] = stats["evaluations"] + stats.get("evaluations_before", 0)
             failing, stats, outdir = fl, st, od
             a.seed = base_seed + k
-            if failing:
+            if failing or os.path.exists(os.path.join(od, "crashes.json")):
                 break
     cases = json.load(open(os.path.join(outdir, "cases.json")))
     mach = [(i, c) for i, c in failing if c & 4]
@@ -341,6 +342,16 @@ def check(a, pid, tier, work, t0):
         print("self-validation failed on %d case(s); first: %s" % (len(mach), json.dumps(cases[mach[0][0]])[:1500]))
         die("the check's own specification/oracle machinery failed its self-validation (never a verdict about the code)")
 
+    crashes = []
+    cpath = os.path.join(outdir, "crashes.json")
+    if os.path.exists(cpath):
+        crashes = json.load(open(cpath))
+    if a.replay and crashes:
+        print("replay of %s" % a.replay)
+        print("the implementation panicked outside the observed steps of the case: %s" % crashes[0]["panic"])
+        print(crashes[0]["stack"][:1500])
+        print("VIOLATION property=%s replay=%s no-failing-input-found" % (pid, a.replay))
+        return 1
     if a.replay:
         rec = cases[0]
         code = dict(failing).get(0, 0)
@@ -469,6 +480,15 @@ def check(a, pid, tier, work, t0):
                                      "log": (tlog or coq_log)[-2000:], "widened_search_cases": searched})
                 violations.append(("no-failing-input-found", path))
 
+    if crashes and not violations:
+        # The implementation panicked in a step the case does not observe (the model runs through there):
+        # the correspondence no longer checks on these inputs, and no input failing the property was found.
+        c = min(crashes, key=lambda c: len(json.dumps(c["spec"])))
+        path = write_replay({"spec": c["spec"], "observed": {"panic": c["panic"], "stack": c["stack"]}, "coq": None}, 1, "correspondence-broken",
+                            {"no_longer_checks": "correspondence %s: the implementation panicked outside the observed steps (building the table / reading it back), where the model does not" % stats["case_fn"],
+                             "crashed_cases_in_run": len(crashes)})
+        violations.append(("no-failing-input-found", path))
+
     # ------------------------------------------------------------ evidence
     samples = []
     seen_tags = set()
@@ -500,6 +520,7 @@ def check(a, pid, tier, work, t0):
             "input_distribution": stats["distribution"],
             "correspondence_mismatches": len([1 for i, c in failing if c & 1]),
             "oracle_rejections": len(ok_fail),
+            "crashed_outside_observed_steps": len(crashes),
             "widened_search_cases": searched,
             "source_fingerprint": fp, "source_matches_pinned": fp == pinned,
             "extra_passes_because_source_changed": extra_passes, "evaluations_in_earlier_passes": stats.get("evaluations_before", 0),
